@@ -579,7 +579,7 @@ def units_stream_pairs(tb, rng, tier):
 def run_units_stream(tb, h, res, rng, tier):
     pairs = units_stream_pairs(tb, rng, tier)
     keys = sorted(pairs)
-    nm = 12 if tier == "quick" else 2
+    nm = 6 if tier == "quick" else 2
     mags = {}
     for k in keys:
         if pairs[k] == "cross-category":
@@ -587,7 +587,7 @@ def run_units_stream(tb, h, res, rng, tier):
         elif tier == "quick" and pairs[k] == "canonical-in-category":
             mags[k] = [f2b(x) for x in magnitudes(rng, nm)]
         else:
-            mags[k] = [f2b(x) for x in magnitudes(rng, 3 if tier == "quick" else nm)]
+            mags[k] = [f2b(x) for x in magnitudes(rng, 2)]
     lines = ["%s\t%s\t%s" % (c.hexs(a), c.hexs(b), ",".join("%016x" % v for v in mags[(a, b)])) for a, b in keys]
     impl_out = c.harness_lines_resilient(h, "units", lines, ["--builtin"])
 
@@ -711,10 +711,14 @@ def main(argv):
     known_ids = {e["id"] for e in known}
     impl = Impl(h)
 
+    import time
+    t0 = time.time()
     c.proof_step(res, PID)
+    c.log("proof step %.1fs" % (time.time() - t0)); t0 = time.time()
 
     # ---- correspondence
     rs = run_resolve_stream(tb, h, res, rng, tier)
+    c.log("RESOLVE+LOWER stream %.1fs" % (time.time() - t0)); t0 = time.time()
     if rs["mism"]:
         s0, m, i = rs["mism"][0]
         res.tie_broken("correspondence C17/RESOLVE+LOWER: model and implementation disagree on %d of %d identifiers"
@@ -735,6 +739,7 @@ def main(argv):
         res.violation("convert panics, or the convert built-in disagrees with units::convert",
                       {"kind": "units-law", "law": "no panic; built-in = units::convert", "detail": {"raw": i},
                        "calls": [[a, b, "%016x" % v, repr(b2f(v))] for v in us["mags"][(a, b)]], "observed": [i]})
+    c.log("UNITS stream %.1fs" % (time.time() - t0)); t0 = time.time()
     bs = run_builtin_stream(h, res)
     if bs["mism"]:
         cs, m, o = bs["mism"][0]
@@ -743,6 +748,7 @@ def main(argv):
 
     # ---- the laws on the implementation alone (always run)
     L = law_search(tb, impl, res, rng, tier, known_ids)
+    c.log("BUILTIN stream + law search %.1fs" % (time.time() - t0))
 
     # ---- known findings: re-run each witness
     for e in known:
